@@ -1084,7 +1084,7 @@ def run_shard(ctx, shard):
             continue
         okL, L, siteL = build(ld)
         fam_single(ctx, ld, L, okL, siteL, tier, seed)
-        if okL and alph.thin(base, 'quick', 4, 4) and check_lineobj(L, 1.0, '') is None:
+        if okL and alph.thin(base, 'quick', 10, 10) and check_lineobj(L, 1.0, '') is None:
             # the same line held by an object with a history: every query had been answered for another line before
             def warm(o):
                 for f in (lambda: o.pp, lambda: o.ppd, lambda: o.uw, lambda: o.contains(ld.pref), lambda: o.point(0.3), lambda: o.closest(np.array([1.0, 2.0, 3.0])),
